@@ -16,7 +16,8 @@ IRIS = ["/", "/a b", "/中文?q=é", "https://example.com/x?y=1#f", "/%20ok", "/
 STATIC_PATHS = ["/a.txt", "/index.html", "/sub", "/sub/", "/sub/x.html", "/missing", "/目录", "/目录/", "/dîr", "/page", "/", "/empty.bin"]
 STATIC_TREE = [("site5/a.txt", b"alpha"), ("site5/index.html", b"<h1>i</h1>"), ("site5/sub/index.html", b"<h1>s</h1>"), ("site5/sub/x.html", b"x"),
                ("site5/目录/index.html", b"<h1>cjk</h1>"), ("site5/dîr/index.html", b"<h1>latin</h1>"), ("site5/page.html", b"<p>p</p>"), ("site5/empty.bin", b"")]
-DOWNLOAD_NAMES = [None, None, "a.txt", "a b.txt", "é.txt", "中文.txt", 'q"q.bin', "semi;colon.txt", "x.unknownext"]
+DOWNLOAD_NAMES = [None, None, "a.txt", "a b.txt", "é.txt", "中文.txt", 'q"q.bin', "semi;colon.txt", "x.unknownext",
+                  "report\r\nSet-Cookie: x=1.bin", "nul\x00.txt", "tab\tname.txt"]
 
 
 def gen_headers(t, maxn=3):
